@@ -367,10 +367,13 @@ func (c *Client) Subscribe(topic string, fn EventHandler, options wamp.Dict) err
 	}
 	id := c.sess.IDGen.Next()
 	c.expectReply(id)
-	c.sess.Send() <- &wamp.Subscribe{
+	if err := c.send(&wamp.Subscribe{
 		Request: id,
 		Options: options,
 		Topic:   wamp.URI(topic),
+	}); err != nil {
+		c.dropExpectReply(id)
+		return err
 	}
 
 	// Wait to receive SUBSCRIBED message.
@@ -438,9 +441,12 @@ func (c *Client) Unsubscribe(topic string) error {
 
 	id := c.sess.IDGen.Next()
 	c.expectReply(id)
-	c.sess.Send() <- &wamp.Unsubscribe{
+	if err := c.send(&wamp.Unsubscribe{
 		Request:      id,
 		Subscription: subID,
+	}); err != nil {
+		c.dropExpectReply(id)
+		return err
 	}
 
 	// Wait to receive UNSUBSCRIBED message.
@@ -564,7 +570,12 @@ func (c *Client) Publish(topic string, options wamp.Dict, args wamp.List, kwargs
 	if pubAck {
 		c.expectReply(id)
 	}
-	c.sess.Send() <- message
+	if err := c.send(message); err != nil {
+		if pubAck {
+			c.dropExpectReply(id)
+		}
+		return err
+	}
 
 	if !pubAck {
 		return nil
@@ -628,10 +639,13 @@ func (c *Client) Register(procedure string, fn InvocationHandler, options wamp.D
 	if options == nil {
 		options = wamp.Dict{}
 	}
-	c.sess.Send() <- &wamp.Register{
+	if err := c.send(&wamp.Register{
 		Request:   id,
 		Options:   options,
 		Procedure: wamp.URI(procedure),
+	}); err != nil {
+		c.dropExpectReply(id)
+		return err
 	}
 
 	// Wait to receive REGISTERED message.
@@ -691,9 +705,12 @@ func (c *Client) Unregister(procedure string) error {
 
 	id := c.sess.IDGen.Next()
 	c.expectReply(id)
-	c.sess.Send() <- &wamp.Unregister{
+	if err := c.send(&wamp.Unregister{
 		Request:      id,
 		Registration: procID,
+	}); err != nil {
+		c.dropExpectReply(id)
+		return err
 	}
 
 	// Wait to receive UNREGISTERED message.
@@ -827,7 +844,14 @@ func (c *Client) Call(ctx context.Context, procedure string, options wamp.Dict, 
 	// Expect a reply only once nothing can prevent the request from being
 	// sent, so that no awaitingReply entry is left without a waiter.
 	c.expectReply(id)
-	c.sess.Send() <- message
+	if err = c.send(message); err != nil {
+		c.dropExpectReply(id)
+		if progcb != nil {
+			close(progChan)
+			<-progDone
+		}
+		return nil, err
+	}
 
 	// Wait to receive RESULT message.
 	msg, err := c.waitForReplyWithCancel(ctx, id, procedure, progChan)
@@ -848,7 +872,7 @@ func (c *Client) Call(ctx context.Context, procedure string, options wamp.Dict, 
 		abortMsg, err := c.prepareCallResultMessage(msg)
 		if err != nil {
 			if abortMsg != nil {
-				c.sess.Send() <- abortMsg
+				_ = c.send(abortMsg)
 				// Stop receiving; the peer itself is closed, once, by Close().
 				c.sess.EndRecv(nil)
 			}
@@ -928,7 +952,14 @@ func (c *Client) CallProgressive(ctx context.Context, procedure string, sendProg
 	// Expect a reply only once nothing can prevent the request from being
 	// sent, so that no awaitingReply entry is left without a waiter.
 	c.expectReply(id)
-	c.sess.Send() <- message
+	if err = c.send(message); err != nil {
+		c.dropExpectReply(id)
+		if progcb != nil {
+			close(progChan)
+			<-progDone
+		}
+		return nil, err
+	}
 
 	callInProgress, _ := options[wamp.OptProgress].(bool)
 
@@ -998,7 +1029,7 @@ func (c *Client) CallProgressive(ctx context.Context, procedure string, sendProg
 		abortMsg, err := c.prepareCallResultMessage(msg)
 		if err != nil {
 			if abortMsg != nil {
-				c.sess.Send() <- abortMsg
+				_ = c.send(abortMsg)
 				// Stop receiving; the peer itself is closed, once, by Close().
 				c.sess.EndRecv(nil)
 			}
@@ -1341,6 +1372,42 @@ func unexpectedMsgError(msg wamp.Message, expected wamp.MessageType) error {
 	return errors.New(s)
 }
 
+// send hands msg to the peer unless the client stops first. The transport's
+// writer may already be gone (connection lost, session killed by the router):
+// then nothing takes the message any more, and a plain channel send would
+// block for ever, or panic once Close() closes the peer.
+func (c *Client) send(msg wamp.Message) error {
+	select {
+	case c.sess.Send() <- msg:
+		return nil
+	case <-c.Done():
+		return ErrNotConn
+	}
+}
+
+// runReply sends msg on behalf of the run() goroutine without holding it up:
+// run() is the goroutine that notices the end of the transport and closes
+// Done, so it must not wait for a writer that may be gone. Close() waits for
+// the sender before it closes the peer.
+func (c *Client) runReply(msg wamp.Message) {
+	c.activeInvHandlers.Add(1)
+	go func() {
+		defer c.activeInvHandlers.Done()
+		_ = c.send(msg)
+	}()
+}
+
+// dropExpectReply removes the awaitingReply entry of a request that could not
+// be sent.
+func (c *Client) dropExpectReply(id wamp.ID) {
+	c.sess.Lock()
+	if w, ok := c.awaitingReply[id]; ok {
+		delete(c.awaitingReply, id)
+		close(w.gone)
+	}
+	c.sess.Unlock()
+}
+
 func (c *Client) expectReply(id wamp.ID) {
 	w := &replyWaiter{
 		ch:   make(chan wamp.Message),
@@ -1436,9 +1503,12 @@ CollectResults:
 			c.log.Printf("Call to %q canceled by caller (mode=%s): %s",
 				procedure, c.cancelMode, err)
 		}
-		c.sess.Send() <- &wamp.Cancel{
+		if c.send(&wamp.Cancel{
 			Request: id,
 			Options: wamp.SetOption(nil, wamp.OptMode, c.cancelMode),
+		}) != nil {
+			// The client stopped: nobody is going to answer the CANCEL.
+			break CollectResults
 		}
 		// Wait for the ERROR from the dealer.
 		timer := time.NewTimer(c.responseTimeout)
@@ -1645,13 +1715,13 @@ func (c *Client) runHandleInvocation(msg *wamp.Invocation) {
 		// as ErrNoSuchProcedure, since the dealer has a procedure registered.
 		// It is reported as ErrInvalidArgument to denote that the client has a
 		// problem with the registration ID argument.
-		c.sess.Send() <- &wamp.Error{
+		c.runReply(&wamp.Error{
 			Type:      wamp.INVOCATION,
 			Request:   reqID,
 			Details:   wamp.Dict{},
 			Error:     wamp.ErrInvalidArgument,
 			Arguments: wamp.List{errMsg},
-		}
+		})
 		c.log.Print(errMsg)
 		return
 	}
@@ -1661,13 +1731,13 @@ func (c *Client) runHandleInvocation(msg *wamp.Invocation) {
 	if pptScheme, _ := msg.Details[wamp.OptPPTScheme].(string); pptScheme != "" {
 		if !isPPTSchemeValid(pptScheme) {
 			c.sess.Unlock()
-			c.sess.Send() <- &wamp.Error{
+			c.runReply(&wamp.Error{
 				Type:      wamp.INVOCATION,
 				Request:   reqID,
 				Details:   wamp.Dict{},
 				Error:     wamp.ErrInvalidArgument,
 				Arguments: wamp.List{ErrPPTSchemeInvalid.Error()},
-			}
+			})
 			c.log.Printf("cannot process invocation with invalid ppt schema %q: %v", pptScheme, ErrPPTSchemeInvalid)
 			return
 		}
@@ -1686,13 +1756,13 @@ func (c *Client) runHandleInvocation(msg *wamp.Invocation) {
 
 		if err != nil {
 			c.sess.Unlock()
-			c.sess.Send() <- &wamp.Error{
+			c.runReply(&wamp.Error{
 				Type:      wamp.INVOCATION,
 				Request:   reqID,
 				Details:   wamp.Dict{},
 				Error:     wamp.ErrInvalidArgument,
 				Arguments: wamp.List{err.Error()},
-			}
+			})
 			c.log.Printf("cannot unpack invocation message: %v", err)
 			return
 		}
@@ -1894,7 +1964,7 @@ func (c *Client) runHandleInvocation(msg *wamp.Invocation) {
 							wamp.OptMessage: ErrPPTNotSupportedByPeer.Error(),
 						},
 					}
-					c.sess.Send() <- &abortMsg
+					_ = c.send(&abortMsg)
 					// Stop receiving; the peer itself is closed, once, by Close().
 					c.sess.EndRecv(nil)
 					return
@@ -2001,6 +2071,10 @@ func (c *Client) runSignalReply(msg wamp.Message, requestID wamp.ID) {
 		// the lookup above.
 		c.log.Println("Received", msg.MessageType(), requestID,
 			"that client is no longer waiting for")
+	case <-c.sess.RecvDone():
+		// The waiter is itself still handing its request to a peer that has
+		// stopped reading, and Close() has told the session to stop
+		// receiving: let run() go and close Done, which releases the waiter.
 	case <-c.Done():
 	}
 }
